@@ -1,6 +1,7 @@
 package c06
 
 import (
+	"strings"
 	"encoding/json"
 	"fmt"
 	"os"
@@ -393,6 +394,43 @@ func TestDeepAndLong(t *testing.T) {
 		check("index-path", d, []*gen.Node{gen.NSet("x", gen.NIndex(id("a"), ix...)), gen.NAssign("=", []*gen.Node{gen.NIndex(id("a"), gen.CloneProg(ix)...)}, []*gen.Node{gen.NInt(1)})})
 	}
 	evid.Exhaustive("chains up to 400 operators, nesting up to 60, blocks up to 40, x 3 layouts", n)
+}
+
+// TestEmptyPrograms: a text that holds no statement - blank lines, comment lines, empty statements, in any mixture
+// and with either line-end convention - is the empty program, as long as it ends a line at all.
+func TestEmptyPrograms(t *testing.T) {
+	lines := []string{"", "   ", "\t", "# note", "  # indented note", "#", "# é 注", ";", " ; ; ", "# a # b"}
+	n := 0
+	var rec func(cur []int)
+	rec = func(cur []int) {
+		if len(cur) > 0 {
+			for _, eol := range []string{"\n", "\r\n"} {
+				var b strings.Builder
+				for _, li := range cur {
+					b.WriteString(lines[li])
+					b.WriteString(eol)
+				}
+				src := b.String()
+				shape, tree, err := parseShape(src)
+				if err != nil {
+					rk.Fail(t, "empty", replay{Src: src, Want: "no statements"}, "a text without statements was not parsed as the empty program: %v\nsource: %q", err, src)
+				}
+				if len(tree) != 0 {
+					rk.Fail(t, "empty", replay{Src: src, Want: "no statements", Got: shape}, "a text without statements parsed to %d statement(s): %s\nsource: %q", len(tree), shape, src)
+				}
+				evid.Case("empty/"+src, true, "empty-program")
+				n++
+			}
+		}
+		if len(cur) == 3 {
+			return
+		}
+		for i := range lines {
+			rec(append(append([]int{}, cur...), i))
+		}
+	}
+	rec(nil)
+	evid.Exhaustive("sequences of up to three statement-less lines x line-end convention", n)
 }
 
 func TestRedundantParens(t *testing.T) {
